@@ -213,6 +213,10 @@ def run(ctx, replay=None):
         cfgfile, tcfg = CFGS[name]
         r, ts = tlc.simulate_traces(SPEC, MODULE, cfgfile, num, depth, ctx.seed, drop_vars=DROP)
         ctx.add_tlc('TxExec/sim-' + name, r, exhaustive=False)
+        if r.violation:
+            ctx.inconclusive.append('spec property %s violated on a simulated behaviour of config %s' % (r.violation, name))
+            if r.trace:
+                traces.append(trace_from_tlc_trace(r.trace, tcfg, 'sim-counterexample-%s-%d' % (name, ctx.seed)))
         for k, t in enumerate(ts):
             t['cfg'] = dict(tcfg, mode='model')
             t['id'] = 'sim-%s-%d-%d' % (name, ctx.seed, k)
